@@ -178,6 +178,7 @@ func c11(g *Gen) {
 			if h == 0 {
 				first = dump
 				g.Emit("C11.universe", in, dump, append(cls, "universe")...)
+				g.Emit("C11.wellformed", in, boolS(true), "wellformed") // the shape hypothesis of the canonical-identity theorems
 			} else if dump != first {
 				problems = append(problems, fmt.Sprintf("history %v (early universe %v) gives a different universe", groups, early))
 			}
